@@ -239,11 +239,9 @@ func getConditionTags(condition influxql.Expr, schema *CleanSchema) []*influx.Po
 		case influxql.OR:
 			ltags := getConditionTags(expr.LHS, schema)
 			rtags := getConditionTags(expr.RHS, schema)
-			if ltags == nil {
-				return rtags
-			}
-			if rtags == nil {
-				return ltags
+			// a side without tag equalities matches rows of any shard: the disjunction is unconstrained
+			if ltags == nil || rtags == nil {
+				return nil
 			}
 			return append(ltags, rtags...)
 		case influxql.EQ:
